@@ -49,6 +49,9 @@ import (
 	_ "mods.irisnet.org/api/irismod/token/v1"
 	_ "mods.irisnet.org/api/irismod/token/v1beta1"
 
+	codectypes "github.com/cosmos/cosmos-sdk/codec/types"
+	sdk "github.com/cosmos/cosmos-sdk/types"
+
 	"verifharness/hx"
 )
 
@@ -281,9 +284,22 @@ func main() {
 			for j := 0; j < sd.Methods().Len(); j++ {
 				md := sd.Methods().Get(j)
 				in := md.Input()
-				_, err := reg.Resolve("/" + string(in.FullName()))
+				// registered = the type URL resolves AND it is registered as an implementation of
+				// sdk.Msg (cosmos.base.v1beta1.Msg) AND an Any carrying it unpacks as sdk.Msg
+				// (what tx decoding does). Resolve alone also succeeds for a type registered
+				// under some other interface.
+				url := "/" + string(in.FullName())
+				_, err := reg.Resolve(url)
+				isMsg := false
+				for _, u := range reg.ListImplementations(sdk.MsgInterfaceProtoName) {
+					if u == url {
+						isMsg = true
+					}
+				}
+				var asMsg sdk.Msg
+				uerr := reg.UnpackAny(&codectypes.Any{TypeUrl: url}, &asMsg)
 				s, k := signerKind(in, 0)
-				facts = append(facts, msgFact{string(in.FullName()), string(sd.FullName()), string(md.Name()), err == nil, s, k})
+				facts = append(facts, msgFact{string(in.FullName()), string(sd.FullName()), string(md.Name()), err == nil && isMsg && uerr == nil && asMsg != nil, s, k})
 			}
 		}
 		return true
